@@ -87,6 +87,8 @@ def _step(kinds, modes):
             # when the column-stacking model predicts a negative block height for the drawn growth, apply it anyway
             # and expect armi's refusal (ArithmeticError)
             "probe": st.sampled_from([False, False, True]),
+            # thermal field steps: performThermalAxialExpansion(..., expandFromTinputToThot=...)
+            "fromTinput": st.sampled_from([False, False, False, True]),
             # before the change: re-determine the target of a block through ExpansionData.determineTargetComponent
             "retarget": st.one_of(st.none(), st.none(), st.none(), st.tuples(st.integers(0, 10), st.integers(0, 5)).map(list)),
         }
@@ -327,13 +329,14 @@ class Run:
             temps.append(statistics.mean(T for _, T in mine))
         return grid, field, temps
 
-    def thermal_growth(self, temps):
+    def thermal_growth(self, temps, from_tinput=False):
+        """(1+p(Tnew))/(1+p(Told)); with expandFromTinputToThot the documented reference is c.inputTemperatureInC."""
         m = self.model
         g = {}
         for i in range(m.nb):
             for name in m.solids[i]:
                 c = self.comp(i, name)
-                p0 = c.material.linearExpansionPercent(Tc=float(c.temperatureInC))
+                p0 = c.material.linearExpansionPercent(Tc=float(c.inputTemperatureInC if from_tinput else c.temperatureInC))
                 p1 = c.material.linearExpansionPercent(Tc=temps[i])
                 g[(i, name)] = (1.0 + float(p1) / 100.0) / (1.0 + float(p0) / 100.0)
         return g
@@ -415,10 +418,13 @@ class Run:
         self.judge(pre, self.effective(listed), ch, "prescribed", tag, None)
         return pre
 
-    def apply_thermal(self, step, grid, field, temps, g, tag):
+    def apply_thermal(self, step, grid, field, temps, g, tag, from_tinput=False):
         pre = _snapshot(self.a)
         ch = self.get_changer(step)
-        ch.performThermalAxialExpansion(self.a, grid, field, setFuel=step["setFuel"])
+        if from_tinput:
+            ch.performThermalAxialExpansion(self.a, grid, field, setFuel=step["setFuel"], expandFromTinputToThot=True)
+        else:
+            ch.performThermalAxialExpansion(self.a, grid, field, setFuel=step["setFuel"])
         self.applied += 1
         self.judge(pre, g, ch, "thermal", tag, temps)
         return pre
@@ -506,7 +512,7 @@ class Run:
                 for name in m.solids[i]:
                     got = float(ch.expansionData.getExpansionFactor(self.comp(i, name)))
                     out.check(_rel_close(got, g[(i, name)], 1e-11), "c12/thermal/expansion-factor",
-                              lambda: "%s: block %d %s factor %r, (1+p(Tnew))/(1+p(Told)) = %r (Told %r Tnew %r)"
+                              lambda: "%s: block %d %s factor %r, (1+p(Tnew))/(1+p(Tref)) = %r (Told %r Tnew %r)"
                               % (where, i, name, got, g[(i, name)], pre["comp"][(i, name)]["T"],
                                  temps[i] if kind == "thermal" else temps[(i, name)]))
         # 7. masses and densities
@@ -722,7 +728,8 @@ class Run:
             return True
         # thermal
         grid, field, temps = self.thermal_plan(step)
-        g = self.thermal_growth(temps)
+        from_tinput = bool(step.get("fromTinput"))
+        g = self.thermal_growth(temps, from_tinput)
         ok, dev = self.feasible(g)
         shaped = any(x != 0.0 for x in dev)
         if shaped and self.exclude:
@@ -742,8 +749,11 @@ class Run:
             out.label("thermal:to-0C")
         if all(float(self.comp(i, n).temperatureInC) == temps[i] for i in range(m.nb) for n in m.solids[i]):
             out.label("thermal:no-change")
-        before = self.apply_thermal(step, grid, field, temps, g, "field")
-        if step["inverse"] and all(len(p) == 1 for p in prior):
+        if from_tinput:
+            out.label("thermal:from-Tinput")
+        before = self.apply_thermal(step, grid, field, temps, g, "field, from Tinput" if from_tinput else "field", from_tinput)
+        # (a change referenced to Tinput has no inverse field: its factor does not depend on the previous state)
+        if step["inverse"] and not from_tinput and all(len(p) == 1 for p in prior):
             # the field that puts every block back to its former (block-uniform) temperature
             grid2 = [0.5 * (float(b.p.zbottom) + float(b.p.ztop)) for b in self.a]
             field2 = [p[0] for p in prior]
@@ -792,7 +802,11 @@ def _execute(case, exclude):
 # --------------------------------------------------------------------------------------------
 # core-level path: the reference assembly is expanded, the others follow its mesh (manageCoreMesh)
 
-ASSEM_TYPES = ["fuel", "feed fuel", "igniter fuel", "driver", "lead test assembly", "test"]
+ASSEM_TYPES = ["fuel", "feed fuel", "igniter fuel", "driver", "lead test assembly", "test", "control", "primary control",
+               "secondary control", "radial shield"]
+# entries of the nonUniformAssemFlags setting: equal to, broader than, narrower than, unrelated to the assembly types
+NON_UNIFORM = ["control", "primary control", "secondary control", "fuel", "feed fuel", "igniter fuel", "test", "shield",
+               "radial shield", "primary", "feed", "reflector"]
 
 
 def core_strategy(tier):
@@ -804,6 +818,7 @@ def core_strategy(tier):
             "followers": st.lists(st.sampled_from(ASSEM_TYPES), min_size=1, max_size=3),
             # how the followers are snapped after each reference change: "auto" = manageCoreMesh, True / False =
             # setBlockMesh(refMesh, conserveMassFlag=...) directly
+            "nonUniform": st.lists(st.sampled_from(NON_UNIFORM), min_size=0, max_size=3),
             "conserve": st.lists(st.sampled_from(["auto", "auto", True, False]), min_size=1, max_size=3),
             "steps": st.lists(step, min_size=1, max_size=3),
         }
@@ -839,8 +854,21 @@ def core_execute(case):
     run.a.setType(case["refType"])
     followers = [gen.build_direct(run.blocks, atype=t) for t in case["followers"]]
     everyone = [run.a] + followers
-    for a in everyone:
-        a.makeAxialSnapList(run.a)
+    # "Assemblies that match a flag group on this list will not have their mesh changed with the reference mesh"
+    from armi.reactor.converters.axialExpansionChanger.axialExpansionChanger import makeAssemsAbleToSnapToUniformMesh
+
+    entries = [Flags.fromStringIgnoreErrors(t) for t in case.get("nonUniform", [])]
+    entries = [int(e) for e in entries if int(e)]
+
+    def exempt(a):  # the assembly carries every flag of some entry (flag-group match, not equality)
+        return any((int(a.p.flags) & e) == e for e in entries)
+
+    makeAssemsAbleToSnapToUniformMesh(everyone, case.get("nonUniform", []), referenceAssembly=run.a)
+    run.a.makeAxialSnapList(run.a)
+    for fi, f in enumerate(followers):
+        has_list = any(int(b.p.topIndex) > 0 for b in f)
+        out.check(has_list == (not exempt(f)), "c12/core-mesh/non-uniform-flags-snap-list",
+                  lambda: "follower %d type %r flags %s, nonUniformAssemFlags %r: snap list %s" % (fi, case["followers"][fi], f.p.flags, case.get("nonUniform"), has_list))
     core = _Core(run.a, everyone)
     r = type("R", (), {"core": core})()
     m = run.model
@@ -868,6 +896,13 @@ def core_execute(case):
         for fi, f in enumerate(followers):
             where = "follower %d (%s) after %d reference changes" % (fi, case["followers"][fi], run.applied)
             out.label("follower:" + ("fuel-typed" if f.hasFlags(Flags.FUEL) else "not-fuel-typed"))
+            if exempt(f):
+                out.label("follower:non-uniform-exempt")
+                same = all(float(b.getHeight()) == h for b, h in zip(f, old_h[fi])) and all(
+                    float(c.getMass()) == pre[fi]["comp"][(i, c.name)]["mass"] for i, b in enumerate(f) for c in b)
+                out.check(same, "c12/core-mesh/non-uniform-assembly-changed",
+                          lambda: "%s: type matches nonUniformAssemFlags %r but heights %s -> %s" % (where, case.get("nonUniform"), old_h[fi], [float(b.getHeight()) for b in f]))
+                continue
             tops = [float(b.p.ztop) for b in f]
             bounds = [float(x) for x in f.spatialGrid._bounds[2]]
             ok = len(tops) == len(ref_tops) and all(abs(x - y) <= tol for x, y in zip(tops, ref_tops))
